@@ -129,6 +129,21 @@ func perPublisher(prefix string, pi int, lv *schedfx.LogView, f *final, lastAnno
 			}
 		}
 	}
+	// the latest-synced value moves only with a completed sync: it is the
+	// warm-up advertisement or the head of a success notification (a failed
+	// sync leaves it where it was)
+	if latest > 0 {
+		based := false
+		for _, ev := range okEvents {
+			if strings.HasPrefix(ev, fmt.Sprintf("pub%d[%d] ", pi, latest)) {
+				based = true
+			}
+		}
+		if !based {
+			out = append(out, sched.Finding{Sig: prefix + ":latest-synced-moved-without-a-completed-sync", Msg: fmt.Sprintf("pub%d: latest synced is block[%d] but no success notification has that head; events %v hooks %v", pi, latest, f.events, hooks)})
+			return out
+		}
+	}
 	// the latest announcement is acted on
 	if lastAnnounced >= 0 && latest != lastAnnounced {
 		got := false
